@@ -63,6 +63,7 @@ package dynblock
 // MakeChild: the child inherits exactly the parent's inherited iterators plus the parent itself,
 // in a fresh map (the parent's map is not shared or written).
 // verif:func (*iteration).MakeChild
+//@ nilrecv
 //@ assigns nothing
 //@ ensures new: fresh(ret) && ret != nil && ret.IteratorName == iteratorName && ret.Key == key && ret.Value == value
 //@ ensures root: i == nil ==> ret.Inherited == nil
@@ -73,3 +74,27 @@ package dynblock
 //@ loop 1 invariant inherited != nil && fresh(inherited)
 //@ loop 1 invariant forall k string :: visited(k) ==> has(inherited, k) && inherited[k] == i.Inherited[k]
 //@ loop 1 invariant forall k string :: has(inherited, k) ==> has(i.Inherited, k)
+
+// iterObj(key, value): the object {key = ..., value = ...} an iterator variable denotes.
+// verif:specfunc iterObj(k cty.Value, v cty.Value) cty.Value
+
+// Assumed: this is the definition of iterObj (cty.ObjectVal is outside the repository).
+// verif:func (*iteration).Object
+//@ trusted
+//@ assigns nothing
+//@ ensures ret == iterObj(i.Key, i.Value)
+
+// EvalContext: a fresh child of base that binds exactly the inherited iterator names and the
+// iteration's own name to their iterator objects; base is not written.
+// verif:func (*iteration).EvalContext
+//@ nilrecv
+//@ requires i != nil ==> (forall k string :: has(i.Inherited, k) ==> i.Inherited[k] != nil)
+//@ assigns nothing
+//@ ensures child: fresh(ret) && ret != nil && ret.parent == base
+//@ ensures root: i == nil ==> ret.Variables == nil
+//@ ensures own: i != nil ==> fresh(ret.Variables) && has(ret.Variables, i.IteratorName) && ret.Variables[i.IteratorName] == iterObj(i.Key, i.Value)
+//@ ensures inherited: i != nil ==> (forall k string :: k != i.IteratorName && has(i.Inherited, k) ==> has(ret.Variables, k) && ret.Variables[k] == iterObj(i.Inherited[k].Key, i.Inherited[k].Value))
+//@ ensures nothingElse: i != nil ==> (forall k string :: has(ret.Variables, k) ==> k == i.IteratorName || has(i.Inherited, k))
+//@ loop 1 invariant new != nil && fresh(new) && new.parent == base && new.Variables != nil && fresh(new.Variables)
+//@ loop 1 invariant forall k string :: visited(k) ==> has(new.Variables, k) && new.Variables[k] == iterObj(i.Inherited[k].Key, i.Inherited[k].Value)
+//@ loop 1 invariant forall k string :: has(new.Variables, k) ==> has(i.Inherited, k)
